@@ -361,6 +361,16 @@ func TestC07(t *testing.T) {
 	o := c07Opts()
 	rapid.Check(t, func(t *rapid.T) {
 		d := genDoc(o).Draw(t, "doc")
+		if coin(t, "odd-lengths", 25) {
+			// instances whose lengths are not whole ticks (thirds, sevenths ... of a beat; never an exact half tick, which
+			// needs a denominator of 128 or more): the events of the next instance sit at the rounded tick
+			for i := range d.Insts {
+				if rapid.Bool().Draw(t, "odd-length-here") {
+					d.Insts[i].Values = []Frac{{rapid.IntRange(1, 9).Draw(t, "odd-n"), rapid.SampledFrom([]int{3, 5, 7, 9, 11, 13}).Draw(t, "odd-d")}}
+				}
+			}
+			r.Class("instance-lengths-off-the-tick-grid", 1)
+		}
 		if coin(t, "extreme-tempo", 8) {
 			// the ends of what a set-tempo event can say, and just beyond them
 			v := rapid.SampledFrom([]int{1, 2, 3, 4, 5, 60000000, 59999999, 16777216, 1000000, 60000001, 100000000, 4294967295}).Draw(t, "extreme-bpm")
